@@ -20,6 +20,7 @@ mod envsession;
 mod gen;
 mod model;
 mod ops;
+mod pycheck;
 mod real;
 mod report;
 mod util;
@@ -72,6 +73,8 @@ fn main() {
         "c09" => c09::c09(&ctx),
         "c16" => c16::c16(&ctx),
         "c17" => c17::c17(&ctx),
+        "c18" => pycheck::c18(&ctx),
+        "c19" => pycheck::c19(&ctx),
         "c20" => c20::c20(&ctx),
         other => {
             eprintln!("unknown check {}", other);
